@@ -627,6 +627,11 @@ fn append_instruction(ctx: &mut ValidationContext, inst: Operator, loc: InstrLoc
                                 )
                                 .unwrap();
                             ctx.pop_control().unwrap();
+                            // There is no `else` in the input: this `end`
+                            // closes the (synthesized) alternative, not the
+                            // consequent.
+                            ctx.func.block_mut(block).end = InstrLocId::default();
+                            ctx.func.block_mut(alternative).end = loc;
                             alternative
                         }
                     };
